@@ -141,13 +141,15 @@ def liveGiver (w : World) (g : Option Nat) : Option Nat :=
   | none => none
 
 /-- ordered insert of new_call_out: walk the list subtracting deltas; insert before the first element whose
-    delta is >= the remaining delay and reduce that element's delta -/
+    delta is >= the remaining delay and reduce that element's delta.  The comparison and both delta updates
+    (`(*copp)->delta -= delay`, `delay -= (*copp)->delta`) are the generated expressions. -/
 def insertDelta (l : List Entry) (delay : Int) (c : Call) : List Entry :=
   match l with
   | [] => [{ delta := delay, c := c }]
   | x :: xs =>
-    if Gen.C10.insertBefore x.delta delay then { delta := delay, c := c } :: { x with delta := x.delta - delay } :: xs
-    else x :: insertDelta xs (delay - x.delta) c
+    if Gen.C10.insertBefore x.delta delay then
+      { delta := delay, c := c } :: { x with delta := Gen.C10.insertSplit x.delta delay } :: xs
+    else x :: insertDelta xs (Gen.C10.insertWalk delay x.delta) c
 
 /-- C: `(x) & (CALLOUT_CYCLE_SIZE - 1)` -/
 def slotOf (t : Nat) : Nat := t &&& (N - 1)
@@ -196,7 +198,7 @@ def removeFirst (p : Call â†’ Bool) (l : List Entry) (acc : Int) : Option (Int Ã
       some (acc + x.delta,
         match xs with
         | [] => []
-        | y :: ys => { y with delta := y.delta + x.delta } :: ys)
+        | y :: ys => { y with delta := Gen.C10.unlinkDelta y.delta x.delta } :: ys)
     else
       match removeFirst p xs (acc + x.delta) with
       | none => none
@@ -251,7 +253,7 @@ def removeAllList (p : Call â†’ Bool) : List Entry â†’ List Entry
     if p x.c then
       match xs with
       | [] => []
-      | y :: ys => removeAllList p ({ y with delta := y.delta + x.delta } :: ys)
+      | y :: ys => removeAllList p ({ y with delta := Gen.C10.unlinkDelta y.delta x.delta } :: ys)
     else x :: removeAllList p xs
 termination_by l => l.length
 
@@ -382,7 +384,7 @@ def sweepSecond (sc : Scripts) (w : World) : World :=
     match w.slots tm with
     | [] => w
     | h :: rest =>
-      let h' := { h with delta := h.delta - 1 }
+      let h' := { h with delta := Gen.C10.headDec h.delta }
       let w := setSlot w tm (h' :: rest)
       if Gen.C10.headDue h.delta then visit sc tm ((w.slots tm).length) w else w
   if Gen.C10.sweepIncBeforeVisit then w else { w with cot := w.cot + 1 }
